@@ -20,6 +20,7 @@ func init() {
 	ruleText["R15.1"] = "in each function calling (*Interpreter).run: a run of root code dominates the genGlobalVars call, which dominates the run of its result, which dominates the range loop running the start list; the append of main to the start list is dominated by every other append to it and dominates that loop (or the return of the program)"
 	ruleText["R15.2"] = "every append to the start list built by (*Interpreter).cfg is of the form list = append(list, n) under a test of the function name against \"init\""
 	ruleText["R15.3"] = "in importSrc, the test of Interpreter.srcPkg[importPath] with its early return dominates every io/fs call and every run"
+	ruleText["R15.5"] = "in getVarDependencies the kind of an identifier's parent node is tested only against selectorExpr (and keyValueExpr only together with a struct-literal test); no other parent kind makes an identifier be ignored"
 	ruleText["R15.4"] = "the function collecting the dependencies of a package variable handles function symbols (refers to funcSym): dependencies that pass through function bodies are followed"
 }
 
@@ -33,6 +34,7 @@ func runC15(c *Config, r *Report) {
 	c15R2(ic, r)
 	c15R3(ic, r, "R15.3")
 	c15R4(ic, r)
+	c15R5(ic, r)
 }
 
 // startListVar returns the local variable holding the start list in fi: the one appended
@@ -435,4 +437,81 @@ func c15R4(ic *IC, r *Report) {
 	}
 	r.Check(mentions, "R15.4", collector.Name()+"/follows-functions", ic.pos(ic.G.Funcs[collector].Decl.Pos()), "function symbols are handled by the dependency collector",
 		"the dependency collector "+collector.Name()+" never considers function symbols (no reference to funcSym): a variable initialised by a call f() whose body reads another package variable is not ordered after that variable")
+}
+
+// c15R5: which identifiers the dependency collector ignores. An identifier that is the
+// selected name of a selector never refers to a package variable; every other position
+// (operand, argument, map-literal key, index, ...) does. The collector may therefore skip an
+// identifier because of the kind of its parent only for selectors, or for key:value pairs
+// when it also establishes that the literal is a struct literal.
+func c15R5(ic *IC, r *Report) {
+	fi := ic.fn(r, "getVarDependencies")
+	if fi == nil {
+		return
+	}
+	kindFld := ic.field("node", "kind")
+	ancFld := ic.field("node", "anc")
+	if kindFld == nil || ancFld == nil {
+		r.Errorf("anchor not resolved: node.kind / node.anc")
+		return
+	}
+	// kinds the parent (n.anc.kind) is compared with, anywhere in the collector
+	isAncKind := func(e ast.Expr) bool {
+		se, ok := unparen(e).(*ast.SelectorExpr)
+		if !ok || selField(ic.Info, se) != kindFld {
+			return false
+		}
+		return selField(ic.Info, se.X) == ancFld
+	}
+	constName := func(e ast.Expr) string {
+		if id, ok := unparen(e).(*ast.Ident); ok {
+			if c, ok := ic.Info.Uses[id].(*types.Const); ok {
+				return c.Name()
+			}
+		}
+		return ""
+	}
+	kinds := map[string]token.Pos{}
+	ast.Inspect(fi.Decl.Body, func(n ast.Node) bool {
+		switch x := n.(type) {
+		case *ast.BinaryExpr:
+			if x.Op == token.EQL || x.Op == token.NEQ {
+				if isAncKind(x.X) {
+					if k := constName(x.Y); k != "" {
+						kinds[k] = x.Pos()
+					}
+				} else if isAncKind(x.Y) {
+					if k := constName(x.X); k != "" {
+						kinds[k] = x.Pos()
+					}
+				}
+			}
+		case *ast.SwitchStmt:
+			if x.Tag != nil && isAncKind(x.Tag) {
+				for _, s := range x.Body.List {
+					for _, e := range s.(*ast.CaseClause).List {
+						if k := constName(e); k != "" {
+							kinds[k] = e.Pos()
+						}
+					}
+				}
+			}
+		}
+		return true
+	})
+	mentionsStruct := false
+	ast.Inspect(fi.Decl.Body, func(n ast.Node) bool {
+		if id, ok := n.(*ast.Ident); ok && (id.Name == "structT" || id.Name == "isStruct") {
+			mentionsStruct = true
+		}
+		return true
+	})
+	if _, ok := kinds["selectorExpr"]; !ok {
+		r.Fail("R15.5", "getVarDependencies/skip:selectorExpr", ic.pos(fi.Decl.Pos()), "the collector does not exclude the selected name of a selector: x.f would create a false dependency on a package variable f (reported as a variable definition loop)")
+	}
+	for _, k := range sortedKeys(kinds) {
+		ok := k == "selectorExpr" || (k == "keyValueExpr" && mentionsStruct)
+		r.Check(ok, "R15.5", "getVarDependencies/skip:"+k, ic.pos(kinds[k]), "identifiers are ignored by parent kind only where they cannot refer to a variable",
+			"the dependency collector treats identifiers differently when their parent node is a "+k+": an identifier in that position (for instance the key of a map literal, m = map[K]V{k: 1}) does refer to a package variable, which is then not initialised before its user")
+	}
 }
